@@ -20,7 +20,7 @@ COQ = dict(imports=["Gen.DialectTables", "Spec.C18"], in_ty="in_C18", out_ty="ou
            corr="corr_C18", decide="check_C18", inclass="inclass_C18",
            model="(fun i : in_C18 => let '(d, c, r) := i in offline_chunks d c r)")
 THEOREMS = ["C18_decider_sound", "C18_main", "C18_grammar", "C18_per_migration", "C18_single_block", "C18_autocommit",
-            "C18_no_markers", "C18_content", "C18_tables_wf", "C18_table", "C18_ignores_connection_state", "C18_override_routes"]
+            "C18_no_markers", "C18_content", "C18_tables_wf", "C18_table", "C18_ignores_connection_state", "C18_override_routes", "C18_cut_short"]
 CASE_TIMEOUT = 30
 
 _TR_ERROR = None
@@ -45,14 +45,17 @@ ASSUME = [
     "env.py is the stock wrapper `with context.begin_transaction(): context.run_migrations()` with literal_binds=True, the "
     "context configured from dialect_name or from a live sqlite Connection (fresh or already in a transaction)",
     "mssql_batch_separator / oracle_batch_separator are left at the class default or set to '' or a custom string",
-    "user statements never spell a transaction marker or a batch separator themselves; autocommit blocks are not nested",
+    "user statements never spell a transaction marker or a batch separator themselves; autocommit blocks are not NESTED "
+    "(nesting is outside Alembic's design: online it fails an assertion, offline it emits COMMIT COMMIT ... BEGIN BEGIN)",
 ]
 RULE = ("quick (exhaustive): {sqlite,postgresql,mysql,mariadb,mssql,oracle} x transactional_ddl {unset,True,False} x "
         "transaction_per_migration x {upgrade,downgrade,stamp} --sql x history {one,linear3,branched,merged,two roots} x "
         "autocommit placement {none,first,middle,last revision} + the same lattice on sqlite with the offline context configured "
         "from a LIVE Connection x {fresh, already in a transaction (autobegun)} + the transactional_ddl override routed through the "
         "EnvironmentContext keyword (alone, or contradicted by the configure() argument) on all dialects + mssql/oracle with the "
-        "batch separator option set to '' or a custom string + linear3 with 7 body layouts (autocommit first/last/only/empty/"
+        "batch separator option set to '' or a custom string + offline runs CUT SHORT by an exception raised at every position of every "
+        "migration of the linear history (between statements, inside the autocommit section, in the on_version_apply callback) on "
+        "all dialects x override x transaction_per_migration x {upgrade, downgrade} + linear3 with 7 body layouts (autocommit first/last/only/empty/"
         "twice/multi-statement) ; thorough adds seeded random histories (2-7 revisions, merges, several roots), random bodies "
         "and partial ranges. non-trivial = effective transactional DDL and at least one step; distinct by encoded input")
 EXHAUSTIVE = {"quick": True, "thorough": True}
@@ -67,7 +70,7 @@ LEVEL_TEXT = ("Machine-checked: for every dialect entry of the regenerated table
               "blocks / one enclosing block / autocommit sections exactly as the property says, and no marker without transactional "
               "DDL. The model's output is compared chunk by chunk with the real output buffer on the whole configuration lattice.")
 LEVEL_NOTE = ("Trusted: Coq kernel+vm_compute, the model (tied by exhaustive correspondence on the lattice), the translator, the chunk "
-              "classifier. Not modelled: nested autocommit blocks, exceptions during an offline run.")
+              "classifier. Not modelled: nested autocommit blocks.")
 
 SHAPES = {
     "one": [("a1", [])],
@@ -107,6 +110,22 @@ def _envkw_lattice():
                                                            ["upgrade", "downgrade"]):
             spec = {"upgrade": "heads", "downgrade": "%s:base" % last}[cmd]
             yield _case(dn, (not envkw) if both else None, tpm, cmd, revs, spec, "%s/%s" % (shape, auto), envkw=envkw)
+
+
+def _fail_lattice():
+    revs = _history("lin", "mid")
+    last = revs[-1]["id"]
+    for cmd in ("upgrade", "downgrade"):
+        direction = "up" if cmd == "upgrade" else "dn"
+        spec = "heads" if cmd == "upgrade" else "%s:base" % last
+        fails = []
+        for r in revs:
+            fails += [[r["id"], direction, p] for p in range(len(_slots(r[direction])))] + [[r["id"], direction, "cb"]]
+        for fail in fails:
+            for dn, tddl, tpm in itertools.product(DIALECTS, [None, True, False], [False, True]):
+                c = _case(dn, tddl, tpm, cmd, revs, spec, "lin/mid")
+                c["fail"] = fail
+                yield c
 
 
 def _sep_lattice():
@@ -171,7 +190,12 @@ def _rand_case(rnd):
     conn = rnd.choice(["fresh", "in_txn"]) if rnd.random() < 0.25 else None
     dn = "sqlite" if conn else rnd.choice(DIALECTS)
     sep = rnd.choice(["", "XX"]) if dn in ("mssql", "oracle") and rnd.random() < 0.4 else None
-    return _case(dn, rnd.choice([None, True, False]), rnd.random() < 0.5, cmd, revs, spec, "random", conn, sep=sep)
+    c = _case(dn, rnd.choice([None, True, False]), rnd.random() < 0.5, cmd, revs, spec, "random", conn, sep=sep)
+    if cmd != "stamp" and rnd.random() < 0.3:
+        r = rnd.choice(revs)
+        direction = "up" if cmd == "upgrade" else "dn"
+        c["fail"] = [r["id"], direction, rnd.choice(list(range(len(_slots(r[direction])))) + ["cb"])]
+    return c
 
 
 def generate(tier, seed):
@@ -183,6 +207,7 @@ def generate(tier, seed):
         yield from _conn_lattice(shape, auto)
     yield from _envkw_lattice()
     yield from _sep_lattice()
+    yield from _fail_lattice()
     rnd = random.Random(seed * 7919 + 18)
     for _ in range(600 if tier == "quick" else 20000):
         yield _rand_case(rnd)
@@ -220,22 +245,47 @@ else:
 '''
 
 
+class Boom(Exception):
+    pass
+
+
+def _slots(body):
+    """failure points in source order: ("out", t) before item t / after the last; ("in", t, q) inside autocommit section t"""
+    out = []
+    for t, it in enumerate(body):
+        out.append(("out", t))
+        if it != "s":
+            out += [("in", t, q) for q in range(it[1] + 1)]
+    out.append(("out", len(body)))
+    return out
+
+
 def _fn_src(name, rid, direction, body):
-    lines, p = [], 0
+    lines, p, n = [], 0, 0
     for it in body:
+        lines.append("    _f(%r, %d)" % (direction, n))
+        n += 1
         if it == "s":
             lines.append('    op.execute("STMT %s %s %d")' % (rid, direction, p))
             p += 1
         else:
             lines.append("    with op.get_context().autocommit_block():")
-            if it[1] == 0:
-                lines.append("        pass")
             for _ in range(it[1]):
+                lines.append("        _f(%r, %d)" % (direction, n))
+                n += 1
                 lines.append('        op.execute("AUTO %s %s %d")' % (rid, direction, p))
                 p += 1
-    if not lines:
-        lines = ["    pass"]
+            lines.append("        _f(%r, %d)" % (direction, n))
+            n += 1
+    lines.append("    _f(%r, %d)" % (direction, n))
     return "def %s():\n%s\n" % (name, "\n".join(lines))
+
+
+def _cut_body(body, slot):
+    """what ran before the raise; a raise inside an autocommit section leaves the section with the statements that ran"""
+    if slot[0] == "out":
+        return body[:slot[1]]
+    return body[:slot[1]] + [["a", slot[2]]]
 
 
 def _items(body):
@@ -276,12 +326,19 @@ def run_case(h):
         for r in h["revs"]:
             down = None if not r["down"] else (r["down"][0] if len(r["down"]) == 1 else tuple(r["down"]))
             open(os.path.join(d, "versions", r["id"] + ".py"), "w").write(
-                "from alembic import op\nrevision = %r\ndown_revision = %r\n%s%s" % (
+                "from alembic import op, context\nrevision = %r\ndown_revision = %r\n\n"
+                "def _f(direction, p):\n"
+                "    f = context.config.attributes.get('fail')\n"
+                "    if f and f[0] == revision and f[1] == direction and f[2] == p:\n"
+                "        raise context.config.attributes['exc']('boom')\n\n%s%s" % (
                     r["id"], down, _fn_src("upgrade", r["id"], "up", r["up"]), _fn_src("downgrade", r["id"], "dn", r["dn"])))
+        fail = h.get("fail")       # [revision, "up"/"dn", slot number | "cb"]
 
         def cb(ctx, step, heads, run_args):
             steps_seen.append({"stamp": step.is_stamp, "upgrade": step.is_upgrade, "up": list(step.up_revision_ids),
                                "down": list(step.down_revision_ids), "empty_after": len(heads) == 0})
+            if fail and fail[2] == "cb" and not step.is_stamp and step.up_revision_id == fail[0]:
+                raise Boom("boom")
 
         buf = io.StringIO()
         cfg = Config()
@@ -290,8 +347,10 @@ def run_case(h):
         extra = {}
         if h.get("sep") is not None:
             extra[_sep_option(didx)] = h["sep"]
-        cfg.attributes.update(dn=h["dialect"], tpm=h["tpm"], tddl=h["tddl"], cb=cb, conn=h.get("conn"), extra=extra)
+        cfg.attributes.update(dn=h["dialect"], tpm=h["tpm"], tddl=h["tddl"], cb=cb, conn=h.get("conn"), extra=extra,
+                              fail=tuple(fail) if fail else None, exc=Boom)
         err = None
+        cut = False
         try:
             if h.get("envkw", "unset") == "unset":
                 getattr(command, h["cmd"])(cfg, h["spec"], sql=True)
@@ -312,16 +371,24 @@ def run_case(h):
                     script.run_env()
         except util.CommandError:
             err = "CommandError"
+        except Boom:
+            cut = True
         text = buf.getvalue()
     finally:
         shutil.rmtree(d, ignore_errors=True)
 
     if err:
         # the command refused the range (e.g. target not reachable): nothing was run; model: empty run from a non-empty state
-        return dict(cin="(%s, %s, mkRun false [])" % (_dterm(h, didx), _ocfg(h)),
+        return dict(cin="(%s, %s, mkRun false [] false)" % (_dterm(h, didx), _ocfg(h)),
                     cout="[]" if not text else cf.lst(["RRaw " + cf.string(text[:40])]),
                     out={"err": err, "text": text[:200]}, nontrivial=False, shape="refused-" + h["cmd"])
 
+    cut_body = None
+    if cut and fail[2] != "cb":
+        # the failing step never reached its callback: it is the step of the failing revision
+        rv = revs[fail[0]]
+        cut_body = _cut_body(rv[fail[1]], _slots(rv[fail[1]])[fail[2]])
+        steps_seen.append({"stamp": False, "upgrade": fail[1] == "up", "up": [fail[0]], "down": [], "empty_after": False})
     parts = text.split("\n\n")
     if parts and parts[-1] == "":
         parts = parts[:-1]
@@ -375,8 +442,10 @@ def run_case(h):
             body = []
         else:
             body = revs[s["up"][0]]["up" if s["upgrade"] else "dn"]
+        if cut_body is not None and j == len(steps_seen) - 1:
+            body = cut_body
         osteps.append("mkOstep %s %d%%nat %s" % (_items(body), nver[j], cf.boolean(s["empty_after"])))
-    cin = "(%s, %s, mkRun %s %s)" % (_dterm(h, didx), _ocfg(h), cf.boolean(init_empty), cf.lst(osteps))
+    cin = "(%s, %s, mkRun %s %s %s)" % (_dterm(h, didx), _ocfg(h), cf.boolean(init_empty), cf.lst(osteps), cf.boolean(cut))
     envkw = h.get("envkw", "unset")
     eff = h["tddl"] if h["tddl"] is not None else (envkw if envkw not in ("unset", None) else bool(_resolved_tddl(didx)))
     has_auto = any(it != "s" for s in steps_seen if not s["stamp"]
@@ -387,6 +456,8 @@ def run_case(h):
         shape += "-envkw"
     if h.get("sep") is not None:
         shape += "-sep" + ("empty" if h["sep"] == "" else "custom")
+    if cut:
+        shape += "-cut-" + ("callback" if fail[2] == "cb" else ("in-autocommit" if _slots(revs[fail[0]][fail[1]])[fail[2]][0] == "in" else "body"))
     return dict(cin=cin, cout=cf.lst(chunks), out={"events": " ".join(evs), "steps": len(steps_seen)},
                 nontrivial=bool(eff and steps_seen), shape=shape)
 
